@@ -26,6 +26,9 @@ const allocBound = decoderCap + 4096
 // and can then neither be read nor be searched past
 const keyOversize = "written-record-exceeds-decoder-cap(encoder-has-no-size-limit)"
 
+// one root cause, one key: a group opened on an existing directory does not work with the rolled files that are there
+const keyMisindexed = "reopen:group-index-range-differs-from-rolled-files-on-disk"
+
 var castagnoli = crc32.MakeTable(crc32.Castagnoli)
 
 // frame is the reference framing: crc32c(payload) | len(payload) | payload, big endian.
@@ -74,6 +77,9 @@ type layout struct {
 	aligned  bool // every file starts on a record boundary
 	oversize bool // some record's payload is larger than the decoder's cap
 	torn     int  // bytes after the last complete record (crash images only)
+	// misindexed: non-empty when the (re)opened group's index range does not agree with the rolled files that
+	// are in the directory (see groupView); it is then the root cause named in every violation on this image
+	misindexed string
 }
 
 func (L *layout) index() {
@@ -376,6 +382,11 @@ func evalImage(w cs.WAL, L *layout, d damage, heights []uint64, st stats) []viol
 	for _, h := range heights {
 		for _, ignore := range []bool{false, true} {
 			vs = append(vs, evalSearch(w, L, d, h, ignore, streamLen, st)...)
+		}
+	}
+	if L.misindexed != "" {
+		for i := range vs {
+			vs[i] = viol{keyMisindexed, vs[i].what + " [" + vs[i].key + "]; " + L.misindexed}
 		}
 	}
 	return vs
